@@ -568,17 +568,55 @@ func ruleWatchable(c *Ctx, r *R) {
 			r.ok(casOK(b), key, retPos(ret), "the placeholder's channel may be returned only when the CompareAndSwap succeeded; otherwise no Set will ever close it and the observer blocks forever on a stale value")
 			return
 		}
-		var baseT, baseC ssa.Value
-		if ld, ok := ret.Results[0].(*ssa.UnOp); ok {
-			if fa, ok := ld.X.(*ssa.FieldAddr); ok {
-				baseT = fa.X
+		// the cell a returned value is a field of: `inner.t`, or result #k of an accessor of the cell (`inner.snapshot()`)
+		// whose only return reads a field of its receiver / parameter
+		fieldBase := func(v ssa.Value) ssa.Value {
+			if ld, ok := v.(*ssa.UnOp); ok {
+				if fa, ok := ld.X.(*ssa.FieldAddr); ok {
+					return fa.X
+				}
 			}
-		}
-		if ld, ok := chv.(*ssa.UnOp); ok {
-			if fa, ok := ld.X.(*ssa.FieldAddr); ok {
-				baseC = fa.X
+			ex, ok := v.(*ssa.Extract)
+			if !ok {
+				return nil
 			}
+			call, ok := ex.Tuple.(*ssa.Call)
+			if !ok {
+				return nil
+			}
+			cal := staticCallee(&call.Call)
+			if cal == nil || cal.Blocks == nil || !c.inModule(cal) {
+				return nil
+			}
+			var base ssa.Value
+			nRet := 0
+			instrs(cal, func(_ *ssa.BasicBlock, _ int, in ssa.Instruction) {
+				rt, ok := in.(*ssa.Return)
+				if !ok {
+					return
+				}
+				nRet++
+				if ex.Index >= len(rt.Results) {
+					return
+				}
+				if ld, ok := rt.Results[ex.Index].(*ssa.UnOp); ok {
+					if fa, ok := ld.X.(*ssa.FieldAddr); ok {
+						if prm, ok := fa.X.(*ssa.Parameter); ok {
+							for k, q := range cal.Params {
+								if q == prm && k < len(call.Call.Args) {
+									base = call.Call.Args[k]
+								}
+							}
+						}
+					}
+				}
+			})
+			if nRet != 1 {
+				return nil
+			}
+			return base
 		}
+		baseT, baseC := fieldBase(ret.Results[0]), fieldBase(chv)
 		if baseC == ssa.Value(empty) {
 			sawPlaceholder = true
 			r.ok(casOK(b), key, retPos(ret), "the placeholder's channel may be returned only when the CompareAndSwap succeeded; otherwise no Set will ever close it and the observer blocks forever on a stale value")
